@@ -500,6 +500,9 @@ func runC08(r *simkit.R) {
 	armedBy := map[int]int{}      // object -> lock spec id
 	partial := map[int]bool{}     // object -> its lock did not reach every shard holding it
 	rolledBack := map[int]bool{}  // object -> a tombstone of it was deleted again by a broadcast rollback
+	tombMaybe := map[int]bool{}   // object -> a tombstone visit of it took effect although it was reported as failed (injected)
+	dupLock := map[int]bool{}     // object -> its lock was acknowledged while another broadcast of the same lock was in flight
+	inFlight := map[*enOp]bool{}
 	disturbed := false
 	next := 0
 	// the protecting lock has not expired
@@ -534,6 +537,8 @@ func runC08(r *simkit.R) {
 		}
 		if partial[x] {
 			diag = "the lock was acknowledged although a shard holding the object did not store it"
+		} else if dupLock[x] {
+			diag = "the lock was acknowledged because a shard already held it while another broadcast of the same lock was still in flight"
 		}
 		r.Failf("lock", fmt.Sprintf("locked object is not retrievable: %s [%s]", what, diag), "o%d is protected by lock o%d (accepted by the engine, expires after epoch %d, current epoch %d) but at %s %s: %v", x, armedBy[x], w.u.Specs[armedBy[x]].Exp, w.ep.CurrentEpoch(), where, what, err)
 	}
@@ -556,7 +561,7 @@ func runC08(r *simkit.R) {
 					op.id = r.Intn(nreg)
 				}
 			}
-			return op.kind, func(t *simkit.Task) { byTask[t] = op; w.exec(op) }
+			return op.kind, func(t *simkit.Task) { byTask[t] = op; inFlight[op] = true; w.exec(op) }
 		},
 		boundary: func(key string) {
 			// Shard.Delete of a tombstone object = rollback of a failed tombstone broadcast
@@ -580,6 +585,12 @@ func runC08(r *simkit.R) {
 			if r.Bool(40) {
 				r.Fired("shard put fails after taking effect")
 				history = append(history, "putfault-after")
+				for ts := nreg; ts < nreg+ntomb; ts++ {
+					if strings.Contains(f[2], short(w.addr(ts).Object())) {
+						// the tombstone is in effect on that shard whatever the broadcast reports
+						tombMaybe[w.u.Specs[ts].Target] = true
+					}
+				}
 				return vAfterErr
 			}
 			r.Fired("shard put fails")
@@ -591,6 +602,7 @@ func runC08(r *simkit.R) {
 			if op == nil {
 				return
 			}
+			delete(inFlight, op)
 			r.Op("%s -> %v", op, errS(op.err))
 			switch op.kind {
 			case "put":
@@ -614,12 +626,20 @@ func runC08(r *simkit.R) {
 					break
 				}
 				pa, stored := putAcked[x]
-				if !stored || pa > t.Call || tombAcked[x] {
+				if !stored || pa > t.Call || tombAcked[x] || tombMaybe[x] {
+					// (a tombstone that took effect on a shard although its broadcast reported a failure
+					// leaves it open whether the engine still "stores" the object: not judged)
 					break
 				}
 				if _, ok := armed[x]; !ok {
 					armed[x] = t.Ret
 					armedBy[x] = op.id
+					for o := range inFlight {
+						if o.kind == "lock" && o.id == op.id {
+							dupLock[x] = true
+							r.Probe("lock acknowledged while another broadcast of the same lock was in flight")
+						}
+					}
 					// did every shard that holds the object store the lock?
 					for _, s := range w.shards {
 						hasX, _ := s.fst.Exists(w.addr(x))
